@@ -32,6 +32,10 @@ EXIT_INJECTED = 17
 
 
 class Tracer:
+    # (function in os, index of the argument naming the file that is modified)
+    FDCALLS = [("sendfile", 0), ("copy_file_range", 1), ("write", 0), ("pwrite", 0), ("writev", 0), ("truncate", 0),
+               ("ftruncate", 0), ("link", 1), ("symlink", 1)]
+
     def __init__(self, watch_dir: Path, plan=None, keep_bytes=True):
         self.dir = Path(os.path.realpath(watch_dir))
         self.plan = plan                # (index, mode) or None
@@ -78,6 +82,15 @@ class Tracer:
     # ---- replacements
     def _open(self, file, mode="r", buffering=-1, encoding=None, errors=None, newline=None, closefd=True, opener=None):
         writable = any(c in mode for c in "wax+")
+        pre_raw = None
+        if writable and opener is not None and not isinstance(file, int):
+            # tempfile style: the name is chosen by the opener; open first, then look where the descriptor points
+            try:
+                fd = opener(os.fspath(file), os.O_RDWR)
+            except TypeError:
+                fd = None
+            if fd is not None:
+                file, opener, closefd = fd, None, True
         if not writable or not self._watched(file):
             return self._saved["open"](file, mode, buffering, encoding, errors, newline, closefd, opener)
         tr = self
@@ -182,6 +195,17 @@ class Tracer:
             return self._saved[kind](path, *a, **k)
         return f
 
+    def _fdcall(self, kind, fd_arg):
+        """os-level calls that change a file without going through a file object (sendfile, os.write, truncate ...)."""
+        def f(*a, **k):
+            target = a[fd_arg] if len(a) > fd_arg else None
+            if target is not None and self._watched(target):
+                act = self._event("syscall:" + kind, target=str(target))
+                if act:
+                    self._act(act)
+            return self._saved[kind](*a, **k)
+        return f
+
     def _fsync(self, fd):
         self._event("fsync", injectable=False)
         return self._saved["fsync"](fd)
@@ -196,6 +220,10 @@ class Tracer:
         os.unlink = self._unlink("unlink")
         os.remove = self._unlink("remove")
         os.fsync = self._fsync
+        for kind, fd_arg in self.FDCALLS:
+            if hasattr(os, kind):
+                self._saved[kind] = getattr(os, kind)
+                setattr(os, kind, self._fdcall(kind, fd_arg))
         return self
 
     def __exit__(self, *exc):
@@ -206,6 +234,9 @@ class Tracer:
         os.unlink = self._saved["unlink"]
         os.remove = self._saved["remove"]
         os.fsync = self._saved["fsync"]
+        for kind, _ in self.FDCALLS:
+            if kind in self._saved:
+                setattr(os, kind, self._saved[kind])
         return False
 
 
@@ -301,7 +332,8 @@ def model_trace(events, target: str, selected=None):
             ops.append(["rp", str(pid(ev["src"])), str(pid(ev["dst"]))])
         elif k == "unlink":
             ops.append(["ul", str(pid(ev["path"]))])
-            foreign.append(k)
+        elif k.startswith("syscall:"):
+            ops.append([k, ev["target"]])
     return ops, kmap, paths
 
 
